@@ -747,7 +747,11 @@ pub fn gen_plutus(rng: &mut Rng) -> J {
         ops.push(json!({"op": "AddRefInput", "u": f1, "size": size}));
     }
     let col = new_u(&mut utxo, json!({"addr": {"kind": *rng.pick(&["ent", "byron"]), "k": 2}, "value": {"coin_n": jn(6_000_000), "assets": []}}), rng);
-    ops.push(json!({"op": "AddInput", "u": f1, "utxo": as_utxo}));
+    // a quarter of the scenarios leave the funding to coin selection at the end (inputs chosen by the builder join the script inputs)
+    let select = !as_utxo && rng.chance(1, 4);
+    let mut pool: Vec<u64> = vec![f1];
+    if select { for _ in 0..2 { pool.push(new_u(&mut utxo, json!({"addr": {"kind": *rng.pick(&["ent", "base"]), "k": 1 + rng.below(2)}, "value": {"coin_n": jn(3_000_000 + rng.below(6_000_000)), "assets": []}}), rng)); } }
+    else { ops.push(json!({"op": "AddInput", "u": f1, "utxo": as_utxo})); }
     // script sources: each Plutus script id is consistently provided by witness or by one reference UTxO
     let mut src: std::collections::BTreeMap<u64, J> = std::collections::BTreeMap::new();
     for sid in 1..=5u64 {
@@ -841,11 +845,16 @@ pub fn gen_plutus(rng: &mut Rng) -> J {
     for i in (1..ops.len()).rev() { let j = rng.below(i as u64 + 1) as usize; ops.swap(i, j); }
     ops.extend(fixups);
     ops.push(json!({"op": "AddCollateral", "u": col}));
-    ops.push(json!({"op": "CalcScriptDataHash", "langs": [1, 2, 3]}));
+    // the hash is computed after the last operation that adds an input: with coin selection that is after the selecting call
+    if !select { ops.push(json!({"op": "CalcScriptDataHash", "langs": [1, 2, 3]})); }
     let to = json!({"kind": "ent", "k": 15});
     if rng.chance(1, 3) { ops.push(json!({"op": "SetTotalCollateralAndReturn", "to": to, "n": jn(1_000_000 + rng.below(3_000_000))})); }
     // mostly balanced by the builder; sometimes the caller fixes the fee somewhere between the linear part and a generous total
-    if rng.chance(1, 7) { ops.push(json!({"op": "SetFee", "n": jn(155_381 + 44 * (400 + rng.below(1200)) + rng.below(150_000))})); }
+    // (selection, then the hash, then change: add_inputs_from_and_change would leave no place for the hash between the two)
+    if select { ops.push(json!({"op": "AddInputsFrom", "strat": *rng.pick(&["LargestFirst", "RandomImprove", "LargestFirstMultiAsset", "RandomImproveMultiAsset"]), "us": pool, "seed": rng.below(1000)}));
+                ops.push(json!({"op": "CalcScriptDataHash", "langs": [1, 2, 3]}));
+                ops.push(json!({"op": "AddChange", "to": to})); }
+    else if rng.chance(1, 7) { ops.push(json!({"op": "SetFee", "n": jn(155_381 + 44 * (400 + rng.below(1200)) + rng.below(150_000))})); }
     else { ops.push(json!({"op": "AddChange", "to": to})); }
     ops.push(json!({"op": "Build"}));
     if rng.chance(1, 3) { ops.push(json!({"op": "BuildAgain"})); }
